@@ -147,6 +147,12 @@ Proof.
   intros n v E. specialize (S n v E). destruct (short_fmt n); [reflexivity|contradiction].
 Qed.
 Print Assumptions C15_parser_output_well_formed.
+Example C15_parser_output_example :      (* real token lists parse, and the two side conditions hold for them *)
+  forall l, exists i1 i2 i3,
+    Parser.parse_item l ["lw"; "x8"; "4"; "("; "x9"; ")"]%string = Parser.FOk i1 /\ NoRaw.okb 0 i1 = true /\
+    Parser.parse_item l ["mv"; "t0"; "t1"]%string = Parser.FOk i2 /\ NoRaw.okb 0 i2 = true /\
+    Parser.parse_item l ["dw"; "1"; "+"; "L"]%string = Parser.FOk i3 /\ NoRaw.okb 0 i3 = true.
+Proof. intro l. do 3 eexists. repeat split; vm_compute; reflexivity. Qed.
 
 (* the try/except handlers the model relies on (ValueError of an encoder, non-integer / misfitting sequence element, misfitting
    pack value -> AssemblerError at item.line) are read from the SOURCE on every run (Gen/PassTable.v handlers; the model consults
